@@ -10,6 +10,7 @@ import (
 	"sort"
 	"strconv"
 	"strings"
+	"time"
 
 	"github.com/KevoDB/kevo/pkg/config"
 	"github.com/KevoDB/kevo/pkg/wal"
@@ -17,7 +18,82 @@ import (
 
 func init() {
 	components["wal"] = &component{gen: genWal, run: runWal}
+	// same executor; programs around WAL.ManageRetention (C08: the sequence counter survives retention + restart)
+	components["walret"] = &component{gen: genWalRet, run: runWal}
 	wal.DisableRecoveryLogs = true
+}
+
+// genWalRet: several log files (rotations, some left empty), then ManageRetention with count / age / sequence rules whose
+// thresholds sit at -1/0/+1 of the highest number written, then restart and write again.
+func genWalRet(g *gen, n int, tier string, w *bufio.Writer) {
+	for c := 0; c < n; c++ {
+		fmt.Fprintf(w, "# case %d\n", c)
+		fmt.Fprintln(w, "new")
+		if g.chance(1, 6) {
+			fmt.Fprintf(w, "setnext %d\n", 2+g.intn(40))
+		}
+		nfiles := 1 + g.intn(5)
+		written := 0
+		for f := 0; f < nfiles; f++ {
+			m := g.pick(0, 1, 1, 2, 3, 4)
+			if f == nfiles-1 && g.chance(1, 2) {
+				m = 0 // the current file is empty (as right after a flush)
+			}
+			for i := 0; i < m; i++ {
+				if g.chance(1, 4) {
+					fmt.Fprintln(w, join("batch", "2", "1", hx(g.key()), hx(g.bytesN(3)), "2", hx(g.key()), "="))
+				} else {
+					fmt.Fprintln(w, join("append", strconv.Itoa(g.pick(1, 1, 2)), hx(g.key()), hx(g.bytesN(g.intn(6)))))
+				}
+				written++
+			}
+			if f < nfiles-1 {
+				fmt.Fprintln(w, g.pickS("rotate", "rotate", "rotate", "reopen"))
+				if g.chance(1, 3) {
+					fmt.Fprintln(w, "rotate")
+				}
+			}
+		}
+		for r := 0; r < 1+g.intn(2); r++ {
+			count, maxage, minseq := 0, 0, 0
+			switch g.intn(10) {
+			case 0:
+				count = g.pick(1, 2, 3)
+			case 1:
+				maxage = 24
+			case 2:
+				count, maxage = g.pick(2, 3), 24
+			}
+			if g.chance(4, 5) {
+				minseq = written + g.pick(-2, -1, 0, 0, 0, 1, 1, 2) + g.pick(0, 0, 0, 40)
+				if minseq < 0 {
+					minseq = 0
+				}
+			}
+			// creation times: strictly older for older files; some beyond 24 h
+			ages := make([]string, 8)
+			a := 1 + g.intn(30)
+			for i := len(ages) - 1; i >= 0; i-- {
+				if a == 24 { // never exactly at the age limit: the code measures real time (24 h plus a few microseconds)
+					a = 25
+				}
+				ages[i] = strconv.Itoa(a)
+				a += 1 + g.intn(12)
+			}
+			fmt.Fprintf(w, "retain count=%d maxage=%d minseq=%d ages=%s\n", count, maxage, minseq, strings.Join(ages, ","))
+			fmt.Fprintln(w, "sums")
+			fmt.Fprintln(w, "replay")
+			fmt.Fprintln(w, "reopen")
+			fmt.Fprintln(w, join("append", "1", hx(g.key()), hx(g.bytesN(2))))
+			written++
+			if g.chance(1, 2) {
+				fmt.Fprintln(w, "rotate")
+				fmt.Fprintln(w, join("append", "1", hx(g.key()), hx(g.bytesN(2))))
+				written++
+			}
+		}
+		fmt.Fprintln(w, "replay")
+	}
 }
 
 // ---------- generator ----------
@@ -347,6 +423,28 @@ func runWal(r *runner) {
 				r.emit("from err")
 			} else {
 				r.emit("from ok " + fmtEntries(es))
+			}
+		case "retain":
+			// retain count=<n> maxage=<hours> minseq=<n> ages=<h0,h1,...>: the closed files (oldest first) get creation times
+			// `ages[i]` hours ago (the time stamp IS the file name), then the real WAL.ManageRetention runs
+			kv := parseKV(ws[1:])
+			x.w.Sync()
+			fs := walFiles(x.dir)
+			now := time.Now()
+			ages := strings.Split(kv["ages"], ",")
+			for i := 0; i+1 < len(fs); i++ {
+				h := 0
+				if i < len(ages) {
+					h, _ = strconv.Atoi(ages[i])
+				}
+				os.Rename(fs[i], filepath.Join(x.dir, fmt.Sprintf("%020d.wal", now.Add(-time.Duration(h)*time.Hour).UnixNano())))
+			}
+			n, err := x.w.ManageRetention(wal.WALRetentionConfig{MaxFileCount: atoi(kv["count"]),
+				MaxAge: time.Duration(atoi(kv["maxage"])) * time.Hour, MinSequenceKeep: uint64(atoi(kv["minseq"]))})
+			if err != nil {
+				r.emit("retained err")
+			} else {
+				r.emit(fmt.Sprintf("retained %d", n))
 			}
 		case "replaybytes":
 			d := r.tempDir()
